@@ -63,7 +63,16 @@ def canon_val(x):
 
 
 def canon_atom(e):
-    return e if isinstance(e, int) and not isinstance(e, bool) else -999999
+    """element of a collection -> integer atom.  A nested (frozen) collection is one atomic cell for Cassandra and for the
+    models: it is encoded injectively as an integer (elements 0..997)."""
+    if isinstance(e, int) and not isinstance(e, bool):
+        return e
+    if isinstance(e, (list, tuple)) and all(isinstance(x, int) and 0 <= x < 998 for x in e):
+        c = 1
+        for x in e:
+            c = c * 1000 + x + 1
+        return -c          # negative: never collides with the plain integers used as values
+    return -999999
 
 
 def z(n):
